@@ -44,7 +44,7 @@ func TestVerifBatchConn(t *testing.T) { //nolint:cyclop
 		done := make(chan struct{})
 		go func() {
 			defer close(done)
-			buf := make([]byte, 2048)
+			buf := make([]byte, 9000)
 			for {
 				n, _, err := rx.ReadFrom(buf)
 				if err != nil {
